@@ -379,6 +379,11 @@ func HandleCreate(deps ServerDeps, conn net.Conn, tag string, parts []string, st
 				break
 			}
 
+			// INBOX always exists and is case-insensitive: never create a case variant of it
+			if strings.EqualFold(currentPath, "INBOX") {
+				continue
+			}
+
 			// Check if this intermediate mailbox exists
 			intermediateExists, checkErr := db.MailboxExistsPerUser(userDB, state.UserID, currentPath)
 			if checkErr == nil && !intermediateExists {
@@ -529,6 +534,7 @@ func HandleSubscribe(deps ServerDeps, conn net.Conn, tag string, parts []string,
 		deps.SendResponse(conn, fmt.Sprintf("%s BAD Invalid mailbox name", tag))
 		return
 	}
+	mailboxName = utils.NormalizeMailboxName(mailboxName)
 
 	// Get user database
 	userDB, err := deps.GetUserDB(state.UserID)
@@ -573,6 +579,7 @@ func HandleUnsubscribe(deps ServerDeps, conn net.Conn, tag string, parts []strin
 		deps.SendResponse(conn, fmt.Sprintf("%s BAD Invalid mailbox name", tag))
 		return
 	}
+	mailboxName = utils.NormalizeMailboxName(mailboxName)
 
 	// Get user database
 	userDB, err := deps.GetUserDB(state.UserID)
@@ -624,6 +631,7 @@ func HandleStatus(deps ServerDeps, conn net.Conn, tag string, parts []string, st
 		deps.SendResponse(conn, fmt.Sprintf("%s BAD Invalid mailbox name", tag))
 		return
 	}
+	mailboxName = utils.NormalizeMailboxName(mailboxName)
 
 	// Get mailbox ID using new schema
 	mailboxID, err := db.GetMailboxByNamePerUser(userDB, state.UserID, mailboxName)
